@@ -2,6 +2,7 @@ package main
 
 import (
 	"fmt"
+	"go/token"
 	"regexp"
 	"sort"
 	"strings"
@@ -24,7 +25,7 @@ var reAppendName = regexp.MustCompile(`append:[A-Za-z0-9_>$.*()]+:t\d+`)
 func exploreOperator(p *Prog, fn *ssa.Function, params []AV, opParam string, tok int64) (*InterpModel, [][]*Event, bool) {
 	m := NewInterpModel(p, fnName(fn))
 	m.EmitTests = true
-	keep := map[string]bool{"toNumber": true, "toInt64": true, "stringifyOperand": true, "isEqual": true, "isTruthy": true, "stringify": true}
+	keep := map[string]bool{"toNumber": true, "toInt64": true, "stringifyOperand": true, "isEqual": true, "isTruthy": true, "stringify": true, "ConvertBanglaDigitsToASCII": true}
 	m.KeepAsEvent = func(c *ssa.Function) bool { return keep[fnName(c)] }
 	m.Explore(fn, params, func(st *State) {
 		st.Facts["v:"+opParam+".Type"] = IntV(tok)
@@ -292,6 +293,7 @@ func checkC02(p *Prog, l *Ledger) {
 	check("Unary", evu, []AV{Sym("operator"), Sym("right")}, ut, un)
 	checkCoercions(p, l)
 	checkIsEqual(p, l)
+	checkStatelessOperators(p, l)
 }
 
 func sortStrings(xs []string) []string { sort.Strings(xs); return xs }
@@ -312,8 +314,14 @@ func checkCoercions(p *Prog, l *Ledger) { checkCoercionsRule(p, l, "C02/I1-coerc
 // value, which Go's interface == does only if every number has the same representation (C16's universe rule).
 func checkC02Shared(p *Prog, l *Ledger) {
 	l.As(map[string]string{"C15/S2-text-function": "C02/S4-concatenation-text"}, func() { checkTextSites(p, l) })
-	l.As(map[string]string{"C16/S1-": "C02/S3-equality/one-representation/", "C16/S3-": "C02/S3-equality/syntactic-origin/"}, func() { checkC16(p, l) })
+	l.AsOnly(map[string]string{"C16/S1-": "C02/S3-equality/one-representation/", "C16/S3-": "C02/S3-equality/syntactic-origin/"}, func() { checkC16(p, l) })
 }
+
+const (
+	coTr    = `call\(utils\.ConvertBanglaDigitsToASCII, value\)`
+	coPF    = `ParseFloat\(ConvertBanglaDigitsToASCII\(value\),64\)`
+	coWhole = `\((` + coPF + `#0 == conv:float64\(conv:int64\(` + coPF + `#0\)\)|conv:float64\(conv:int64\(` + coPF + `#0\)\) == ` + coPF + `#0)\)`
+)
 
 func checkCoercionsRule(p *Prog, l *Ledger, rule string) {
 	for _, spec := range []struct {
@@ -325,6 +333,14 @@ func checkCoercionsRule(p *Prog, l *Ledger, rule string) {
 		{"interpreter.toInt64", "float64", map[string]string{
 			"integral":     `test\(\(conv:float64\(conv:int64\(value\)\) == value\)\)→true ; return\(conv:int64\(value\), nil\)`,
 			"non-integral": `test\(\(conv:float64\(conv:int64\(value\)\) == value\)\)→false ; return\(0, Errorf\(.*\)\)`}},
+		// text: transliterated, parsed by ParseFloat as a whole (no prefix parse), then treated like a float
+		{"interpreter.toNumber", "string", map[string]string{
+			"parsed":   coTr + ` ; niltest\(` + coPF + `#1\)→nil ; return\(` + coPF + `#0, nil\)`,
+			"rejected": coTr + ` ; niltest\(` + coPF + `#1\)→nonnil ; return\((const:)?0, Errorf\(.*\)\)`}},
+		{"interpreter.toInt64", "string", map[string]string{
+			"rejected":     coTr + ` ; niltest\(` + coPF + `#1\)→nonnil ; return\(0, Errorf\(.*\)\)`,
+			"integral":     coTr + ` ; niltest\(` + coPF + `#1\)→nil ; test\(` + coWhole + `\)→true ; return\(conv:int64\(` + coPF + `#0\), nil\)`,
+			"non-integral": coTr + ` ; niltest\(` + coPF + `#1\)→nil ; test\(` + coWhole + `\)→false ; return\(0, Errorf\(.*\)\)`}},
 		{"interpreter.toNumber", "bool", map[string]string{"reject": `return\((const:)?0, Errorf\(.*\)\)`}},
 		{"interpreter.toInt64", "bool", map[string]string{"reject": `return\(0, Errorf\(.*\)\)`}},
 		{"interpreter.toNumber", "[]interface{}", map[string]string{"reject": `return\((const:)?0, Errorf\(.*\)\)`}},
@@ -338,7 +354,8 @@ func checkCoercionsRule(p *Prog, l *Ledger, rule string) {
 		}
 		m := NewInterpModel(p, key)
 		m.EmitTests = true
-		m.KeepAsEvent = func(c *ssa.Function) bool { return false }
+		m.KeepAsEvent = func(c *ssa.Function) bool { return fnName(c) == "ConvertBanglaDigitsToASCII" } // transliteration: C10
+		m.Unroll = 1 // the text case may hand the parsed number to the function itself
 		pname := fn.Params[0].Name()
 		m.Explore(fn, []AV{Sym("value")}, func(st *State) { st.Facts["type:value"] = StrV(spec.typ) })
 		_ = pname
@@ -429,4 +446,112 @@ func wordStringQuiet(w []*Event) string {
 		parts = append(parts, e.String())
 	}
 	return strings.Join(parts, " ; ")
+}
+
+// checkStatelessOperators: whether an operation is valid, and what it yields, is a function of its operands alone.  The
+// functions that decide it — evaluateBinary, evaluateUnary and everything they call (coercions, equality, rendering) —
+// therefore neither write nor read mutable package-level state; the one exception is the error flag, which only
+// utils.RuntimeError writes (C06/S1).  A memo table keyed by operand text, a counter, a "last operand" cache would make
+// the same operation succeed once and fail (or succeed wrongly) the next time.
+func checkStatelessOperators(p *Prog, l *Ledger) {
+	rule := "C02/S5-stateless-operators"
+	ii := p.Interp()
+	roots := []*ssa.Function{p.Func("interpreter.evaluateBinary"), p.Func("interpreter.evaluateUnary"), ii.IsTruthy, p.Func("interpreter.isEqual"), p.Func("interpreter.stringify")}
+	set := map[*ssa.Function]bool{}
+	for _, r := range roots {
+		if r == nil {
+			continue
+		}
+		for fn := range p.Reachable(r) {
+			if p.InModule(fn) && fn != ii.RuntimeErr && fn.Blocks != nil {
+				set[fn] = true
+			}
+		}
+	}
+	var fns []*ssa.Function
+	for fn := range set {
+		fns = append(fns, fn)
+	}
+	sort.Slice(fns, func(i, j int) bool { return p.FuncKey(fns[i]) < p.FuncKey(fns[j]) })
+	if len(fns) < 8 {
+		l.Violate(rule+"/vacuity", "operator functions", "", fmt.Sprintf("only %d functions reachable from the operator entry points (expected >= 8: the dispatchers, the handle* helpers, the coercions)", len(fns)))
+	}
+	rootGlobal := func(v ssa.Value) *ssa.Global {
+		for i := 0; i < 10; i++ {
+			switch x := v.(type) {
+			case *ssa.Global:
+				return x
+			case *ssa.FieldAddr:
+				v = x.X
+			case *ssa.IndexAddr:
+				v = x.X
+			case *ssa.UnOp:
+				if x.Op != token.MUL {
+					return nil
+				}
+				v = x.X
+			case *ssa.Slice:
+				v = x.X
+			default:
+				return nil
+			}
+		}
+		return nil
+	}
+	mutable := map[*ssa.Global]int{} // 0 unknown, 1 constant after init, 2 mutable
+	isMutable := func(g *ssa.Global) bool {
+		if mutable[g] != 0 {
+			return mutable[g] == 2
+		}
+		mutable[g] = 1
+		for _, fn := range p.ModuleFuncs() {
+			if fn.Name() == "init" && fn.Signature.Recv() == nil {
+				continue
+			}
+			instrsOf(fn, func(in ssa.Instruction) {
+				switch x := in.(type) {
+				case *ssa.Store:
+					if rootGlobal(x.Addr) == g {
+						mutable[g] = 2
+					}
+				case *ssa.MapUpdate:
+					if rootGlobal(x.Map) == g {
+						mutable[g] = 2
+					}
+				}
+			})
+		}
+		return mutable[g] == 2
+	}
+	for _, fn := range fns {
+		key := p.FuncKey(fn)
+		l.Funcs[key] = true
+		var bad []string
+		pos := ""
+		instrsOf(fn, func(in ssa.Instruction) {
+			switch x := in.(type) {
+			case *ssa.Store:
+				if g := rootGlobal(x.Addr); g != nil && g != ii.FlagRT {
+					bad = append(bad, "writes the package-level "+g.Name())
+					pos = p.InstrPos(in)
+				}
+			case *ssa.MapUpdate:
+				if g := rootGlobal(x.Map); g != nil {
+					bad = append(bad, "writes into the package-level table "+g.Name())
+					pos = p.InstrPos(in)
+				}
+			case *ssa.UnOp:
+				if g, ok := x.X.(*ssa.Global); ok && x.Op == token.MUL && g != ii.FlagRT && g.Pkg != nil && p.InModulePkg(g.Pkg) && isMutable(g) {
+					bad = append(bad, "reads the package-level "+g.Name()+", which is written after initialisation")
+					pos = p.InstrPos(in)
+				}
+			}
+		})
+		bad = uniqStrings(sortStrings(bad))
+		if len(bad) == 0 {
+			l.Discharge(rule, key, p.Pos(fn.Pos()), "no package-level state written, none read that changes after initialisation", false)
+		} else {
+			l.Violate(rule, key, pos, "an operator's outcome must depend on its operands only, but this function "+strings.Join(bad, " and ")+": the same operation can be accepted once and rejected (or computed differently) later")
+		}
+	}
 }
